@@ -312,7 +312,7 @@ def run_one(item, extra):
     rng = random.Random(seed * 7 + 1)
     # crash points: after every step from the StartExecution call on, and after every engine broker op
     first = min([s for s, idle, t in info["steps"] if s > 0] or [0])
-    start_step = [c for c in ref.world.api.calls if c["action"] == "StartExecution"][0]["step0"]
+    start_step = [rec for ex, rec in ref.start_calls if rec is not None][0]["step0"]     # (API call or raw start event)
     points = [("step", s) for s, idle, t in info["steps"] if s >= start_step]
     points += [("op", j) for j in range(1, len([o for o in info["ops"] if o[0] >= start_step]) +
                                         len([o for o in info["ops"] if o[0] < start_step]) + 1)
@@ -451,7 +451,7 @@ def run_multi_case(case, seed):
 
         def after():
             if not state["armed"]:
-                if any(c["action"] == "StartExecution" for c in res.world.api.calls):
+                if any(rec is not None for ex, rec in res.start_calls):
                     state["armed"] = True
                 return
             if node.dead:
